@@ -100,6 +100,8 @@ func runC08(c *vkit.Ctx, lab *Lab, r *rand.Rand, i int) {
 	if sum == nil {
 		sum = &Summary{}
 	}
+	allowed := lab.AllowedListings(res, a)
+	// ids of protected entries are not "allowed" mentions: subtract them below per id
 	protectedItems := 0
 	tests := make([]string, 0, len(prot.Reason))
 	for t := range prot.Reason {
@@ -144,7 +146,14 @@ func runC08(c *vkit.Ctx, lab *Lab, r *rand.Rand, i int) {
 				pre, _ := lab.preEntries(res, cr.Path)
 				post, _ := vkit.ReadSnapFile(cr.Path)
 				pi, qi := vkit.FindEntries(pre, id), vkit.FindEntries(post, id)
-				listed := inList(sum.Tests, id)
+				// the id may also be stale (unprotected) in other files: only mentions beyond those are about this entry
+				protectedSame := 0
+				for k, t2 := range own.Entry {
+					if k[1] == id && prot.Reason[t2] != "" && addrFile[k[0]] && !addrEntry[k] {
+						protectedSame++
+					}
+				}
+				listed := countOf(sum.Tests, id) > allowed[id]-protectedSame
 				changed := len(pi) == 1 && (len(qi) != 1 || pre[pi[0]].Body != post[qi[0]].Body)
 				if listed || changed {
 					class := ""
